@@ -1,2 +1,103 @@
 import Gopki.Model.Db
-import Gopki.Model.Hash
+/-! # C19 — manipulations alter exactly the named field and stay under the signature -/
+namespace C19
+open Gen Config
+
+/-- the outer manipulations (`.signatureAlgorithm`, `.signatureValue`) are never read while the
+    to-be-signed part is built and signed: the signed bytes are untouched by them -/
+theorem C19_outer_leaves_tbs (c : V1.CertificateContent) (prk : Option PrivKey) (req : Option Spki) (o : Oracle)
+    (sa : Option Oid) (sv : Option Der.Bytes) :
+    buildCertBody { c with manipulations := { c.manipulations with signatureAlgorithm := sa, signatureValue := sv } } prk req o =
+    buildCertBody c prk req o := rfl
+
+/-- `.version` changes the version and nothing else of the body -/
+theorem C19_version_frame (c : V1.CertificateContent) (prk : Option PrivKey) (req : Option Spki) (o : Oracle) (v : Int) (ctx : Context)
+    (h : buildCertBody c prk req o = .ok ctx) :
+    buildCertBody { c with manipulations := { c.manipulations with version := some v } } prk req o =
+      .ok { ctx with tbs := { ctx.tbs with version := v } } := by
+  unfold buildCertBody at h ⊢
+  split at h
+  · simp at h
+  · rename_i bs hbs
+    simp only [hbs, Except.ok.injEq] at h ⊢
+    subst h; rfl
+
+/-- `.tbs.signature` presets the inner algorithm (and `Sign` keeps a preset one) and changes nothing else -/
+theorem C19_tbs_signature_frame (c : V1.CertificateContent) (prk : Option PrivKey) (req : Option Spki) (o : Oracle) (a : Oid) (ctx : Context)
+    (h : buildCertBody c prk req o = .ok ctx) :
+    buildCertBody { c with manipulations := { c.manipulations with tbsSignature := some a } } prk req o =
+      .ok { ctx with tbs := { ctx.tbs with sigAlg := some ⟨a, none⟩ } } := by
+  unfold buildCertBody at h ⊢
+  split at h
+  · simp at h
+  · rename_i bs hbs
+    simp only [hbs, Except.ok.injEq] at h ⊢
+    subst h; rfl
+
+/-- `.tbs.subjectPublicKey.subjectPublicKey` replaces the key bits (byte aligned) and changes nothing else;
+    the private key — and hence the signature key for issued certificates — is untouched -/
+theorem C19_public_key_frame (c : V1.CertificateContent) (prk : Option PrivKey) (req : Option Spki) (o : Oracle) (b : Der.Bytes) (ctx : Context)
+    (h : buildCertBody c prk req o = .ok ctx) (hnone : c.manipulations.tbsPublicKey = none) :
+    buildCertBody { c with manipulations := { c.manipulations with tbsPublicKey := some b } } prk req o =
+      .ok { ctx with tbs := { ctx.tbs with spki := { ctx.tbs.spki with bits := ⟨b, 8 * b.length⟩ } } } := by
+  unfold buildCertBody at h ⊢
+  split at h
+  · simp at h
+  · rename_i bs hbs
+    simp only [hbs, Except.ok.injEq, hnone] at h ⊢
+    subst h; rfl
+
+/-- `.tbs.subjectPublicKey.algorithm` replaces the algorithm identifier (no parameters) and nothing else -/
+theorem C19_public_key_alg_frame (c : V1.CertificateContent) (prk : Option PrivKey) (req : Option Spki) (o : Oracle) (a : Oid) (ctx : Context)
+    (h : buildCertBody c prk req o = .ok ctx) (hnone : c.manipulations.tbsPublicKeyAlgorithm = none) (hb : c.manipulations.tbsPublicKey = none) :
+    buildCertBody { c with manipulations := { c.manipulations with tbsPublicKeyAlgorithm := some a } } prk req o =
+      .ok { ctx with tbs := { ctx.tbs with spki := { ctx.tbs.spki with alg := ⟨a, none⟩ } } } := by
+  unfold buildCertBody at h ⊢
+  split at h
+  · simp at h
+  · rename_i bs hbs
+    simp only [hbs, Except.ok.injEq, hnone, hb] at h ⊢
+    subst h; rfl
+
+/-- a preset inner algorithm survives signing; everything `signBody` returns is covered by the signature
+    (the signature is computed over `tbsTlv` of exactly this value) -/
+theorem C19_sign_keeps_preset (ctx : Context) (iss : IssuerContext) (alg : Nat) (a : AlgId) (tbs : Tbs) (outer : AlgId) (k : PrivKey)
+    (hpre : ctx.tbs.sigAlg = some a) (h : signBody ctx iss alg = .ok (tbs, outer, k)) :
+    tbs.sigAlg = some a ∧ tbs.version = ctx.tbs.version ∧ tbs.spki = ctx.tbs.spki := by
+  unfold signBody at h
+  split at h
+  · simp at h
+  · split at h
+    · simp at h
+    · split at h
+      · simp at h
+      · split at h
+        · simp at h
+        · simp only [Except.ok.injEq, Prod.mk.injEq] at h
+          obtain ⟨h1, _, _⟩ := h
+          subst h1
+          simp [hpre]
+
+/-- a subject key identifier requested as `hash` follows manipulated key bits: it is computed from the
+    bits that are in the body when the extensions are compiled -/
+theorem C19_ski_follows_bits (crit : Bool) (ctx : Context) (iss : IssuerContext) :
+    compile (.subjectKeyIdHash crit) ctx iss = .ok (Cert.newSubjectKeyIdentifier crit ctx.tbs.spki.bits.bytes) := rfl
+
+/-- a value `Manipulations.apply` cannot parse is an error, never a silent skip: `apply` succeeds only
+    if every one of the five textual fields was parsed -/
+theorem C19_apply_total (m : V1.Manipulations) (r : Config.Manipulations) (h : m.apply = .ok r) :
+    V1.optOid m.outerSigAlg = .ok r.signatureAlgorithm ∧ V1.optRaw m.sigValue = .ok r.signatureValue ∧
+    V1.optOid m.tbsSig = .ok r.tbsSignature ∧ V1.optOid m.tbsPubKeyAlg = .ok r.tbsPublicKeyAlgorithm ∧
+    V1.optRaw m.tbsPubKey = .ok r.tbsPublicKey ∧ r.version = m.version := by
+  unfold V1.Manipulations.apply at h
+  split at h <;> simp_all
+  subst h
+  simp
+
+/-- in particular an OID with an arc that does not fit is reported -/
+theorem C19_bad_oid_reported (s : String) (hne : s.isEmpty = false) (hbad : oidFromString s = none) :
+    ∃ e, V1.optOid s = .error e := by
+  unfold V1.optOid
+  simp [hne, hbad]
+
+end C19
